@@ -122,8 +122,8 @@ func (cc *clientCxn) IsCloseRequested() bool {
 
 var _ = requestAllCxnClose
 
-func requestAllCxnClose() {
-	processAllClients(func(id int64, cs *clientState) {
+func requestAllCxnClose(dss *dataStoreSet) {
+	processAllClients(dss, func(id int64, cs *clientState) {
 		cc, ok := cs.client.(*clientCxn)
 		if ok {
 			cc.RequestClose()
